@@ -160,7 +160,8 @@ def decide(pid, tier='quick', seed=0, known=None):
     if vac_missing:
         raise Undecided('vacuity guard: twin(s) with `ensures false` verified: %s (contradictory precondition or unreachable exit)' % vac_missing)
     # proof fns (lemmas) that appear in the SMT breakdown and are not extracted fns
-    lemma_fns = sorted(k for k in cl['fn'] if not any(k.endswith('::' + (r[0])) for r in asm.fn_ranges) and '__vac' not in k)
+    extracted_names = {f['name'] for f in asm.functions} | {f.get('rename') for f in asm.functions if f.get('rename')}
+    lemma_fns = sorted(k for k in cl['fn'] if k.split('::')[-1] not in extracted_names and '__vac' not in k)
     obligations = []
     for l in sorted(prop_labels):
         obligations.append(dict(label=l, kind='clause', discharged=l not in failed_labels, backend='verus+z3',
